@@ -191,15 +191,20 @@ class World:
         # the directory lives under the (private) home directory: odd-numbered objects name the same file home-relative
         # ... and its name and the file's name contain `$NAME` / `${NAME}` with NAME set: the name is used verbatim
         os.environ["C07VAR"] = "expanded"
-        self.dir = os.path.join(core.home_dir(), "kd$C07VAR")
+        # ... and the spelling given to the objects goes through a symbolic link and back up (`current -> releases/7`, so
+        # `current/..` is `releases`, not the directory that holds the link): the operating system resolves the name, nobody else
+        top = os.path.join(core.home_dir(), "kd$C07VAR")
+        self.dir = os.path.join(top, "releases")
         self.path = os.path.join(self.dir, "app${C07VAR}.key")
-        self.names = [self.path if i % 2 == 0 else "~/kd$C07VAR/app${C07VAR}.key" for i in range(nobj)]
+        spelled = os.path.join(top, "current", "..", "app${C07VAR}.key")
+        self.names = [spelled if i % 2 == 0 else "~/kd$C07VAR/current/../app${C07VAR}.key" for i in range(nobj)]
         if not aes:
             import pathlib
-            self.names[0] = pathlib.Path(self.path)        # a path object instead of a string (the one-object jobs)
+            self.names[0] = pathlib.Path(spelled)        # a path object instead of a string (the one-object jobs)
         import shutil
-        shutil.rmtree(self.dir, ignore_errors=True)
-        os.makedirs(self.dir)
+        shutil.rmtree(top, ignore_errors=True)
+        os.makedirs(os.path.join(self.dir, "7"))
+        os.symlink(os.path.join("releases", "7"), os.path.join(top, "current"))
         self.objs = [KeyFile(self.names[i]) for i in range(nobj)]
         self.model = KFModel(nobj)
         self.binding = {}
@@ -219,13 +224,14 @@ class World:
         if x == "nodir":
             shutil.rmtree(self.dir, ignore_errors=True)
             return
-        os.makedirs(self.dir, exist_ok=True)
+        os.makedirs(os.path.join(self.dir, "7"), exist_ok=True)
         if x == "absent":
             if os.path.exists(self.path):
                 os.unlink(self.path)
             return
         with open(self.path, "wb") as fh:
             fh.write(content_of(x, self.binding))
+        os.utime(self.path, ns=(10 ** 18, 10 ** 18))       # every version of the file carries the same time stamp (a restored backup, `cp -p`)
 
     def real_step(self, op):
         """Execute on the implementation; -> ("ok", value) | ("raise", exc)"""
